@@ -1,4 +1,7 @@
-(* Proofs about model/HttpRange.v (C32). *)
+(* Proofs about model/HttpRange.v (C32): int64 arithmetic, the structured parser against the
+   RFC reference, the response for in-bounds ranges (single and multipart, with the framing
+   arithmetic), the partial theorems on parsed ranges.  The text parser is in
+   proof/HttpRangeParseProofs.v.  NOTE: parse_spec_ref is also used by C28. *)
 From Coq Require Import List NArith ZArith Bool String Ascii Lia.
 From Coq Require Import ZifyBool ZifyN ZifyNat.
 From SW Require Import model.HttpRange.
@@ -40,6 +43,10 @@ Proof.
 Qed.
 Lemma oz_eqb_refl : forall o, oz_eqb o o = true.
 Proof. intros [z|]; simpl; auto. apply Z.eqb_refl. Qed.
+Lemma ranges_eqb_refl : forall l, ranges_eqb l l = true.
+Proof.
+  induction l as [|x l IH]; simpl; auto. unfold range_eqb. rewrite !Z.eqb_refl, IH. reflexivity.
+Qed.
 
 Lemma blob_eqb_eq : forall a b, blob_eqb a b = true -> a = b.
 Proof.
@@ -87,7 +94,7 @@ Proof.
     injection H as <-. unfold in_bounds. simpl. lia.
 Qed.
 
-(* whenever the RFC says a spec selects bytes, parseRange computes exactly those *)
+(* whenever the RFC says a spec selects bytes, the arithmetic of parseRange computes exactly those *)
 Lemma parse_spec_ref : forall sp size r, ref_spec sp size = Some r -> parse_spec sp size = Some r.
 Proof.
   intros [a b|a|n] size r H; unfold ref_spec in H; cbv zeta in H; unfold parse_spec; cbv zeta.
@@ -129,59 +136,98 @@ Proof.
   - destruct (Z.of_N n >? size) eqn:E1; injection H as <-; simpl; lia.
 Qed.
 
+Lemma parse_spec_start_le : forall sp size r, 0 <= size -> parse_spec sp size = Some r -> 0 <= fst r <= size.
+Proof.
+  intros [a b|a|n] size r Hs H; unfold parse_spec in H; cbv zeta in H.
+  - destruct (Z.of_N a >? size) eqn:E1; [discriminate|].
+    destruct (Z.of_N a >? Z.of_N b) eqn:E2; [discriminate|].
+    destruct (Z.of_N b >=? size) eqn:E3; injection H as <-; simpl; lia.
+  - destruct (Z.of_N a >? size) eqn:E1; [discriminate|]. injection H as <-. simpl. lia.
+  - destruct (Z.of_N n >? size) eqn:E1; injection H as <-; simpl; lia.
+Qed.
+
+(* the faithful structured parser = the arithmetic, unless a number does not fit int64 *)
+Lemma parse_spec64_small : forall sp size, spec_big sp = false -> parse_spec64 sp size = parse_spec sp size.
+Proof. intros sp size H. unfold parse_spec64. rewrite H. reflexivity. Qed.
+Lemma parse_spec64_big : forall sp size, spec_big sp = true -> parse_spec64 sp size = None.
+Proof. intros sp size H. unfold parse_spec64. rewrite H. reflexivity. Qed.
+Lemma parse_spec64_some : forall sp size r, parse_spec64 sp size = Some r ->
+  parse_spec sp size = Some r /\ spec_big sp = false.
+Proof. intros sp size r H. unfold parse_spec64 in H. destruct (spec_big sp); [discriminate|auto]. Qed.
+
+(* whenever the RFC says a spec selects bytes and its numbers fit int64, parseRange computes exactly those *)
+Lemma parse_spec64_ref : forall sp size r, spec_big sp = false ->
+  ref_spec sp size = Some r -> parse_spec64 sp size = Some r.
+Proof. intros sp size r Hb H. rewrite parse_spec64_small by assumption. apply parse_spec_ref. assumption. Qed.
+
+Lemma num_big_false : forall n, Z.of_N n <= int64_max -> num_big n = false.
+Proof. intros n H. unfold num_big. lia. Qed.
+
 (* the three single-range forms, explicitly *)
-Lemma parse_closed : forall a b size, (a <= b)%N -> Z.of_N a < size ->
+Lemma parse_closed : forall a b size, size <= int64_max -> Z.of_N b <= int64_max ->
+  (a <= b)%N -> Z.of_N a < size ->
   parse_specs [RClosed a b] size = Some [(Z.of_N a, Z.min (Z.of_N b) (size - 1) - Z.of_N a + 1)].
 Proof.
-  intros a b size Hab Ha. unfold parse_specs.
-  rewrite (parse_spec_ref (RClosed a b) size (Z.of_N a, Z.min (Z.of_N b) (size - 1) - Z.of_N a + 1)); auto.
-  unfold ref_spec. cbv zeta.
-  destruct ((Z.of_N a <=? Z.of_N b) && (Z.of_N a <? size)) eqn:E; [reflexivity|lia].
+  intros a b size Hs Hb Hab Ha. unfold parse_specs.
+  rewrite (parse_spec64_ref (RClosed a b) size (Z.of_N a, Z.min (Z.of_N b) (size - 1) - Z.of_N a + 1)); auto.
+  - simpl. rewrite !num_big_false by lia. reflexivity.
+  - unfold ref_spec. cbv zeta.
+    destruct ((Z.of_N a <=? Z.of_N b) && (Z.of_N a <? size)) eqn:E; [reflexivity|lia].
 Qed.
-Lemma parse_from : forall a size, Z.of_N a < size ->
+Lemma parse_from : forall a size, size <= int64_max -> Z.of_N a < size ->
   parse_specs [RFrom a] size = Some [(Z.of_N a, size - Z.of_N a)].
 Proof.
-  intros a size Ha. unfold parse_specs, parse_spec. cbv zeta.
+  intros a size Hs Ha. unfold parse_specs, parse_spec64. simpl spec_big.
+  rewrite num_big_false by lia. unfold parse_spec. cbv zeta.
   destruct (Z.of_N a >? size) eqn:E; [lia|reflexivity].
 Qed.
-Lemma parse_suffix : forall n size, 0 <= size ->
+Lemma parse_suffix : forall n size, 0 <= size -> Z.of_N n <= int64_max ->
   parse_specs [RSuffix n] size = Some [(size - Z.min (Z.of_N n) size, Z.min (Z.of_N n) size)].
 Proof.
-  intros n size Hs. unfold parse_specs, parse_spec. cbv zeta.
+  intros n size Hs Hn. unfold parse_specs, parse_spec64. simpl spec_big.
+  rewrite num_big_false by lia. unfold parse_spec. cbv zeta.
   destruct (Z.of_N n >? size) eqn:E; f_equal; f_equal; f_equal; lia.
 Qed.
 (* first-byte-pos beyond the size: the whole header is refused; first-byte-pos = size is NOT *)
 Lemma parse_start_beyond : forall a b size, size < Z.of_N a -> parse_specs [RClosed a b] size = None.
 Proof.
-  intros a b size H. unfold parse_specs, parse_spec. cbv zeta.
+  intros a b size H. unfold parse_specs, parse_spec64.
+  destruct (spec_big (RClosed a b)); [reflexivity|]. unfold parse_spec. cbv zeta.
   destruct (Z.of_N a >? size) eqn:E; [reflexivity|lia].
 Qed.
-Lemma parse_start_at_size : forall b size, 0 <= size -> (Z.to_N size <= b)%N ->
+Lemma parse_start_at_size : forall b size, 0 <= size <= int64_max -> (Z.to_N size <= b)%N ->
+  Z.of_N b <= int64_max ->
   parse_specs [RClosed (Z.to_N size) b] size = Some [(size, 0)].
 Proof.
-  intros b size Hs Hb. unfold parse_specs, parse_spec. cbv zeta.
-  rewrite Z2N.id by assumption.
+  intros b size Hs Hb Hb2. unfold parse_specs, parse_spec64. simpl spec_big.
+  rewrite !num_big_false by lia. unfold parse_spec. cbv zeta. cbn [orb].
+  rewrite Z2N.id by lia.
   destruct (size >? size) eqn:E1; [lia|].
   destruct (size >? Z.of_N b) eqn:E2; [lia|].
   destruct (Z.of_N b >=? size) eqn:E3; [|lia].
   f_equal. f_equal. f_equal. lia.
 Qed.
+(* a number above int64 max: "invalid range" *)
+Lemma parse_big : forall sp size, spec_big sp = true -> parse_specs [sp] size = None.
+Proof. intros sp size H. unfold parse_specs. rewrite parse_spec64_big by assumption. reflexivity. Qed.
 
 (* ------------------------------------------------------------------ *)
 (* the structured parser against the reference ranges *)
 
 Lemma parse_specs_none : forall sps size, parse_specs sps size = None ->
-  existsb (spec_start_beyond size) sps = true \/ existsb spec_invalid sps = true.
+  existsb (spec_start_beyond size) sps = true \/ existsb spec_invalid sps = true \/ existsb spec_big sps = true.
 Proof.
   induction sps as [|sp sps IH]; intros size H; simpl in H; [discriminate|].
-  destruct (parse_spec sp size) as [r|] eqn:E.
+  destruct (parse_spec64 sp size) as [r|] eqn:E.
   - destruct (parse_specs sps size) as [rs|] eqn:E2; [discriminate|].
-    destruct (IH size E2) as [H1|H1]; [left|right]; simpl; rewrite H1; apply orb_true_r.
-  - clear IH H. destruct sp as [a b|a|n]; unfold parse_spec in E; cbv zeta in E.
+    destruct (IH size E2) as [H1|[H1|H1]]; [left|right; left|right; right]; simpl; rewrite H1; apply orb_true_r.
+  - clear IH H. unfold parse_spec64 in E. destruct (spec_big sp) eqn:Eb.
+    { right. right. simpl. rewrite Eb. reflexivity. }
+    destruct sp as [a b|a|n]; unfold parse_spec in E; cbv zeta in E.
     + destruct (Z.of_N a >? size) eqn:E1.
       * left. simpl. rewrite E1. reflexivity.
       * destruct (Z.of_N a >? Z.of_N b) eqn:E2; [|destruct (Z.of_N b >=? size); discriminate].
-        right. simpl. replace (b <? a)%N with true by lia. reflexivity.
+        right. left. simpl. replace (b <? a)%N with true by lia. reflexivity.
     + destruct (Z.of_N a >? size) eqn:E1; [|discriminate]. left. simpl. rewrite E1. reflexivity.
     + destruct (Z.of_N n >? size); discriminate.
 Qed.
@@ -192,9 +238,10 @@ Lemma parse_specs_some : forall sps size rs, 0 <= size ->
 Proof.
   induction sps as [|sp sps IH]; intros size rs Hs H Hz; simpl in H.
   - injection H as <-. reflexivity.
-  - destruct (parse_spec sp size) as [r|] eqn:E; [|discriminate].
+  - destruct (parse_spec64 sp size) as [r|] eqn:E; [|discriminate].
     destruct (parse_specs sps size) as [rs'|] eqn:E2; [|discriminate].
     injection H as <-. simpl in Hz. apply orb_false_iff in Hz. destruct Hz as [Hz1 Hz2].
+    apply parse_spec64_some in E. destruct E as [E _].
     simpl. rewrite (parse_spec_nonzero sp size r Hs E) by lia.
     f_equal. apply IH; auto.
 Qed.
@@ -211,10 +258,84 @@ Lemma parse_specs_no_negative : forall sps size rs, 0 <= size ->
 Proof.
   induction sps as [|sp sps IH]; intros size rs Hs H; simpl in H.
   - injection H as <-. reflexivity.
-  - destruct (parse_spec sp size) as [r|] eqn:E; [|discriminate].
+  - destruct (parse_spec64 sp size) as [r|] eqn:E; [|discriminate].
     destruct (parse_specs sps size) as [rs'|] eqn:E2; [|discriminate].
     injection H as <-. simpl. rewrite (IH size rs' Hs E2).
+    apply parse_spec64_some in E. destruct E as [E _].
     pose proof (parse_spec_len_nonneg sp size r Hs E). rewrite orb_false_r. lia.
+Qed.
+
+Lemma parse_specs_start_le : forall sps size rs, 0 <= size ->
+  parse_specs sps size = Some rs -> existsb (fun ra : range => fst ra >? size) rs = false.
+Proof.
+  induction sps as [|sp sps IH]; intros size rs Hs H; simpl in H.
+  - injection H as <-. reflexivity.
+  - destruct (parse_spec64 sp size) as [r|] eqn:E; [|discriminate].
+    destruct (parse_specs sps size) as [rs'|] eqn:E2; [|discriminate].
+    injection H as <-. simpl. rewrite (IH size rs' Hs E2).
+    apply parse_spec64_some in E. destruct E as [E _].
+    pose proof (parse_spec_start_le sp size r Hs E). rewrite orb_false_r. lia.
+Qed.
+
+(* ------------------------------------------------------------------ *)
+(* the size of the multipart framing *)
+
+Lemma ndigits_pos : forall f n, 1 <= ndigits f n.
+Proof.
+  induction f as [|f IH]; intros n; cbn [ndigits]; [lia|].
+  destruct (n <? 10); [lia|]. generalize (IH (n / 10)). generalize (ndigits f (n / 10)). intros k Hk. lia.
+Qed.
+Lemma dec_len_pos : forall z, 1 <= dec_len z.
+Proof.
+  intros z. unfold dec_len. destruct (z <? 0).
+  - pose proof (ndigits_pos 20 (- z)). lia.
+  - apply ndigits_pos.
+Qed.
+Lemma cr_len_pos : forall c, 0 <= cr_len c.
+Proof.
+  intros [[a b] s]. unfold cr_len.
+  pose proof (dec_len_pos a). pose proof (dec_len_pos b). pose proof (dec_len_pos s). lia.
+Qed.
+Lemma boundary_len_val : boundary_len = 60. Proof. reflexivity. Qed.
+Lemma closing_len_val : closing_len = 68. Proof. reflexivity. Qed.
+Lemma part_hdr_len_pos : forall first c ctlen, 0 <= ctlen -> 0 <= part_hdr_len first c ctlen.
+Proof.
+  intros first c ctlen H. unfold part_hdr_len. rewrite boundary_len_val.
+  pose proof (cr_len_pos c). destruct first; lia.
+Qed.
+Lemma mp_hdrs_pos : forall size ctlen rs first, 0 <= ctlen -> 0 <= mp_hdrs size ctlen first rs.
+Proof.
+  intros size ctlen rs. induction rs as [|r rs IH]; intros first H; simpl; [lia|].
+  pose proof (part_hdr_len_pos first (content_range r size) ctlen H). specialize (IH false H). lia.
+Qed.
+Lemma slen_nonneg : forall s, 0 <= slen s.
+Proof. intros. unfold slen. lia. Qed.
+
+Lemma sum_lens_nonneg : forall rs, (forall r, In r rs -> 0 <= snd r) -> 0 <= sum_lens rs.
+Proof.
+  induction rs as [|r rs IH]; intros H; [unfold sum_lens; simpl; lia|].
+  pose proof (H r (or_introl eq_refl)). assert (0 <= sum_lens rs) by (apply IH; intros; apply H; right; assumption).
+  change (sum_lens (r :: rs)) with (snd r + sum_lens rs). lia.
+Qed.
+
+(* sumRangesSize does not wrap when the exact sum fits *)
+Lemma sum_ranges_nowrap_acc : forall rs acc, 0 <= acc -> (forall r, In r rs -> 0 <= snd r) ->
+  acc + sum_lens rs <= int64_max ->
+  fold_left (fun acc r => wrap64 (acc + snd r)) rs acc = acc + sum_lens rs.
+Proof.
+  induction rs as [|r rs IH]; intros acc Ha Hp Hm.
+  - unfold sum_lens. simpl. lia.
+  - assert (H0 : 0 <= snd r) by (apply Hp; left; reflexivity).
+    assert (H1 : 0 <= sum_lens rs) by (apply sum_lens_nonneg; intros; apply Hp; right; assumption).
+    assert (E : sum_lens (r :: rs) = snd r + sum_lens rs) by reflexivity.
+    rewrite E in *. cbn [fold_left].
+    rewrite wrap64_id by (rewrite int64_min_val; lia).
+    rewrite IH; [lia|lia| |lia]. intros; apply Hp; right; assumption.
+Qed.
+Lemma sum_ranges_nowrap : forall rs, (forall r, In r rs -> 0 <= snd r) ->
+  sum_lens rs <= int64_max -> sum_ranges rs = sum_lens rs.
+Proof.
+  intros rs Hp Hm. unfold sum_ranges. rewrite sum_ranges_nowrap_acc; auto; lia.
 Qed.
 
 (* ------------------------------------------------------------------ *)
@@ -227,13 +348,6 @@ Proof.
   rewrite wrap64_id; [reflexivity|]. rewrite int64_min_val. lia.
 Qed.
 
-Lemma multipart_parts : forall d rs, (forall r, In r rs -> in_bounds (blen d) r) ->
-  map (fun ra => (content_range ra (blen d), fst (write_fn d (fst ra) (snd ra)))) rs = expected_parts d rs.
-Proof.
-  intros d rs H. unfold expected_parts. apply map_ext_in. intros r Hr.
-  destruct (H r Hr) as [H0 _]. rewrite write_fn_fst by assumption. reflexivity.
-Qed.
-
 Lemma no_start_beyond : forall size rs, (forall r, In r rs -> in_bounds size r) ->
   existsb (fun ra : range => fst ra >? size) rs = false.
 Proof.
@@ -242,69 +356,160 @@ Proof.
   destruct (H r (or_introl eq_refl)) as [H0 [H1 H2]]. rewrite orb_false_r. lia.
 Qed.
 
-(* the 206 answer for a non-empty list of in-bounds ranges carries exactly these slices *)
-Lemma process_in_bounds : forall d rs enc, rs <> [] ->
+(* the writer goroutine on in-bounds ranges: every part complete, no abort *)
+Lemma mp_write_in_bounds : forall d ctlen rs first, (forall r, In r rs -> in_bounds (blen d) r) ->
+  mp_write d ctlen first rs = (expected_parts d rs, mp_hdrs (blen d) ctlen first rs + sum_lens rs, false).
+Proof.
+  intros d ctlen rs. induction rs as [|r rs IH]; intros first H.
+  - reflexivity.
+  - destruct (H r (or_introl eq_refl)) as [H0 [H1 H2]].
+    cbn [mp_write]. rewrite write_fn_ok by assumption. cbn [N.eqb].
+    rewrite (IH false) by (intros; apply H; right; assumption).
+    rewrite slice_len by assumption.
+    assert (E : sum_lens (r :: rs) = snd r + sum_lens rs) by reflexivity. rewrite E.
+    cbn [expected_parts map mp_hdrs]. f_equal. f_equal. lia.
+Qed.
+
+(* the 206 answer for a non-empty list of in-bounds ranges carries exactly these slices;
+   a multipart body is complete and its Content-Length is its size *)
+Lemma process_in_bounds : forall d rs enc ct, rs <> [] ->
   (forall r, In r rs -> in_bounds (blen d) r) -> sum_ranges rs >? blen d = false ->
-  let resp := process_parsed (Some rs) d enc in
+  mp_fits (blen d) (slen ct) rs = true ->
+  let resp := process_parsed (Some rs) d enc ct in
   r_status resp = 206%N /\ resp_parts resp = expected_parts d rs /\ no_write_error resp = true /\
+  mp_framing_ok resp = true /\
   (is_multipart resp = false -> exists r, rs = [r] /\ r_cl resp = Some (snd r)).
 Proof.
-  intros d rs enc Hne Hin Hsum. unfold process_parsed. rewrite Hsum.
+  intros d rs enc ct Hne Hin Hsum Hfit. unfold process_parsed. rewrite Hsum.
   destruct rs as [|r1 [|r2 rs]]; [congruence| |].
   - destruct (Hin r1 (or_introl eq_refl)) as [H0 [H1 H2]].
     rewrite write_fn_ok by assumption. simpl. repeat split; auto.
     intros _. exists r1. split; reflexivity.
   - rewrite no_start_beyond by assumption.
-    cbv zeta. unfold resp_parts, no_write_error, is_multipart. cbn [r_status r_body r_cr r_cl].
+    set (rs' := r1 :: r2 :: rs) in *.
+    assert (Hp : forall r, In r rs' -> 0 <= snd r) by (intros r Hr; destruct (Hin r Hr) as [_ [G _]]; lia).
+    pose proof (sum_lens_nonneg rs' Hp) as Hl0.
+    pose proof (mp_hdrs_pos (blen d) (slen ct) rs' true (slen_nonneg ct)) as Hh0.
+    unfold mp_fits in Hfit. unfold mp_overhead in *. rewrite closing_len_val in *.
+    rewrite sum_ranges_nowrap by (auto; lia).
+    rewrite wrap64_id by (rewrite int64_min_val; lia).
+    rewrite mp_write_in_bounds by assumption. cbv zeta. cbn [negb andb].
+    replace (sum_lens rs' + (mp_hdrs (blen d) (slen ct) true rs' + 68) <=? 0) with false by lia.
+    replace (sum_lens rs' + (mp_hdrs (blen d) (slen ct) true rs' + 68) =?
+             mp_hdrs (blen d) (slen ct) true rs' + sum_lens rs' + 68) with true by lia.
+    unfold resp_parts, no_write_error, is_multipart, mp_framing_ok. cbn [r_status r_body r_cr r_cl].
     repeat split; auto.
-    + apply multipart_parts. assumption.
+    + destruct enc; [reflexivity|]. rewrite Z.eqb_refl. reflexivity.
     + intros H. discriminate.
+Qed.
+
+(* a multi-range request with a start beyond the size: 416 "Out of Range" *)
+Lemma process_beyond : forall d r1 r2 rs enc ct,
+  sum_ranges (r1 :: r2 :: rs) >? blen d = false ->
+  existsb (fun ra : range => fst ra >? blen d) (r1 :: r2 :: rs) = true ->
+  process_parsed (Some (r1 :: r2 :: rs)) d enc ct = resp_416 4.
+Proof. intros d r1 r2 rs enc ct Hs He. unfold process_parsed. cbv zeta. rewrite Hs. cbv beta iota. rewrite He. reflexivity. Qed.
+
+(* ------------------------------------------------------------------ *)
+(* what an untriggered list of parsed ranges looks like *)
+
+Lemma trig_parsed_none : forall rs size, trig_parsed (Some rs) size = None ->
+  sum_ranges rs >? size = false /\ rs <> [] /\
+  ((exists r1 r2 rest, rs = r1 :: r2 :: rest /\ existsb (fun ra : range => fst ra >? size) rs = true)
+   \/ (has_negative_length rs = false /\ has_zero_length rs = false)).
+Proof.
+  intros rs size H. unfold trig_parsed in H.
+  destruct (sum_ranges rs >? size) eqn:Hsum; [discriminate|].
+  split; [reflexivity|].
+  destruct rs as [|r1 [|r2 rest]]; [discriminate| |].
+  - split; [congruence|]. right.
+    destruct (snd r1 <? 0) eqn:E1; [discriminate|]. destruct (snd r1 =? 0) eqn:E2; [discriminate|].
+    simpl. rewrite E1, E2. auto.
+  - split; [congruence|].
+    destruct (existsb (fun ra : range => fst ra >? size) (r1 :: r2 :: rest)) eqn:Eb.
+    + left. exists r1, r2, rest. auto.
+    + right. destruct (has_negative_length (r1 :: r2 :: rest)); [discriminate|].
+      destruct (has_zero_length (r1 :: r2 :: rest)); [discriminate|]. auto.
+Qed.
+
+Lemma trig_specs_none : forall sps size, trig_specs sps size = None ->
+  trig_mixed sps size = false /\ trig_big sps size = false /\ trig_parsed (parse_specs sps size) size = None.
+Proof.
+  intros sps size H. unfold trig_specs in H.
+  destruct (trig_mixed sps size); [discriminate|]. destruct (trig_big sps size); [discriminate|]. auto.
+Qed.
+
+Lemma is_nil_false : forall {A} (l : list A), is_nil l = false -> l <> [].
+Proof. intros A [|x l] H; simpl in H; congruence. Qed.
+Lemma not_nil_is_nil : forall {A} (l : list A), l <> [] -> is_nil l = false.
+Proof. intros A [|x l] H; simpl; congruence. Qed.
+
+(* a 416 is right when the structured parser fails outside the triggers k=4, k=6 *)
+Lemma parse_none_416_ok : forall sps size, parse_specs sps size = None ->
+  trig_mixed sps size = false -> trig_big sps size = false ->
+  is_nil (ref_ranges sps size) || existsb spec_invalid sps = true.
+Proof.
+  intros sps size Ep Hmix Hbig.
+  destruct (existsb spec_invalid sps) eqn:Hi; [apply orb_true_r|].
+  destruct (parse_specs_none sps size Ep) as [Hb|[Hb|Hb]].
+  - unfold trig_mixed in Hmix. rewrite Hb, Hi in Hmix. cbn [andb negb] in Hmix.
+    apply negb_false_iff in Hmix. rewrite Hmix. reflexivity.
+  - congruence.
+  - unfold trig_big in Hbig. rewrite Hb, Hi in Hbig. cbn [andb negb] in Hbig.
+    apply negb_false_iff in Hbig. rewrite Hbig. reflexivity.
 Qed.
 
 (* ------------------------------------------------------------------ *)
 (* C32 on structured headers: partial theorem *)
 
-Lemma trig_specs_none : forall sps size, trig_specs sps size = None ->
-  trig_mixed sps size = false /\ trig_parsed (parse_specs sps size) size = None.
-Proof.
-  intros sps size H. unfold trig_specs in H. destruct (trig_mixed sps size); [discriminate|]. auto.
-Qed.
-
-Lemma is_nil_false : forall {A} (l : list A), match l with [] => true | _ => false end = false -> l <> [].
-Proof. intros A [|x l] H; congruence. Qed.
-
-Theorem exact_specs_partial : forall d sps enc,
+Theorem exact_specs_partial : forall d sps enc ct,
+  mp_fits (blen d) (slen ct) (ref_ranges sps (blen d)) = true ->
   trig_specs sps (blen d) = None ->
-  spec_ok d sps (process_parsed (parse_specs sps (blen d)) d enc) = true.
+  spec_ok d sps (process_parsed (parse_specs sps (blen d)) d enc ct) = true.
 Proof.
-  intros d sps enc Ht. apply trig_specs_none in Ht. destruct Ht as [Hmix Htp].
+  intros d sps enc ct Hfit Ht. apply trig_specs_none in Ht. destruct Ht as [Hmix [Hbig Htp]].
   pose proof (blen_nonneg d) as Hs.
   destruct (parse_specs sps (blen d)) as [rs|] eqn:Ep.
   - (* parsed *)
-    unfold trig_parsed in Htp.
-    destruct (has_negative_length rs) eqn:Hneg; [discriminate|].
-    destruct (sum_ranges rs >? blen d) eqn:Hsum; [discriminate|].
-    assert (Hne : rs <> []) by (destruct rs; [discriminate|congruence]).
-    assert (Hz : has_zero_length rs = false) by (destruct rs; [congruence|]; destruct (has_zero_length (r :: rs)); [discriminate|reflexivity]).
+    destruct (trig_parsed_none rs (blen d) Htp) as [Hsum [Hne Hcase]].
+    assert (Hz : has_zero_length rs = false).
+    { destruct Hcase as [[r1 [r2 [rest [_ Hb]]]]|[_ Hz]]; [|assumption].
+      rewrite (parse_specs_start_le sps (blen d) rs Hs Ep) in Hb. discriminate. }
     pose proof (parse_specs_some sps (blen d) rs Hs Ep Hz) as Hrs.
     assert (Hin : forall r, In r rs -> in_bounds (blen d) r).
     { intros r Hr. rewrite Hrs in Hr. eapply ref_ranges_in_bounds; eauto. }
-    destruct (process_in_bounds d rs enc Hne Hin Hsum) as [H1 [H2 [H3 H4]]].
+    rewrite <- Hrs in Hfit.
+    destruct (process_in_bounds d rs enc ct Hne Hin Hsum Hfit) as [H1 [H2 [H3 [H4 H5]]]].
     unfold spec_ok. rewrite <- Hrs.
-    set (resp := process_parsed (Some rs) d enc) in *.
-    rewrite H1, H2, H3, parts_eqb_refl. cbn [N.eqb Pos.eqb andb].
-    replace (match rs with [] => true | _ => false end) with false by (destruct rs; congruence).
-    cbn [negb andb].
+    set (resp := process_parsed (Some rs) d enc ct) in *.
+    rewrite H1, H2, H3, H4, parts_eqb_refl. cbn [N.eqb Pos.eqb andb].
+    rewrite (not_nil_is_nil rs Hne). cbn [negb andb].
     destruct (is_multipart resp) eqn:Em.
     + rewrite orb_true_r. reflexivity.
-    + destruct (H4 eq_refl) as [r [Hr Hcl]]. rewrite Hr, Hcl, oz_eqb_refl. rewrite orb_true_r. reflexivity.
+    + destruct (H5 eq_refl) as [r [Hr Hcl]]. rewrite Hr, Hcl, oz_eqb_refl. rewrite orb_true_r. reflexivity.
   - (* parse error: 416 *)
-    unfold spec_ok, process_parsed, full_200. cbn [r_status N.eqb Pos.eqb andb orb].
-    destruct (parse_specs_none sps (blen d) Ep) as [Hb|Hi].
-    + unfold trig_mixed in Hmix. rewrite Hb in Hmix. cbn [andb] in Hmix.
-      destruct (existsb spec_invalid sps); [apply orb_true_r|].
-      cbn [negb andb] in Hmix. apply negb_false_iff in Hmix. rewrite Hmix. reflexivity.
-    + rewrite Hi. apply orb_true_r.
+    unfold spec_ok, process_parsed, resp_416, full_200. cbn [r_status N.eqb Pos.eqb andb orb].
+    apply parse_none_416_ok; assumption.
+Qed.
+
+(* the parser alone on structured headers *)
+Lemma trig_parse_specs_none : forall sps size, trig_parse_specs sps size = None ->
+  trig_mixed sps size = false /\ trig_big sps size = false /\
+  (forall rs, parse_specs sps size = Some rs -> has_zero_length rs = false).
+Proof.
+  intros sps size H. unfold trig_parse_specs in H.
+  destruct (trig_mixed sps size); [discriminate|]. destruct (trig_big sps size); [discriminate|].
+  repeat split; auto. intros rs E. rewrite E in H. destruct (has_zero_length rs); [discriminate|reflexivity].
+Qed.
+
+Theorem parse_specs_partial : forall sps size, 0 <= size ->
+  trig_parse_specs sps size = None ->
+  parse_spec_ok sps size (parse_specs sps size) = true.
+Proof.
+  intros sps size Hs Ht. apply trig_parse_specs_none in Ht. destruct Ht as [Hmix [Hbig Hz]].
+  unfold parse_spec_ok. destruct (parse_specs sps size) as [rs|] eqn:Ep.
+  - rewrite <- (parse_specs_some sps size rs Hs Ep (Hz rs eq_refl)). apply ranges_eqb_refl.
+  - apply parse_none_416_ok; assumption.
 Qed.
 
 (* ------------------------------------------------------------------ *)
@@ -375,6 +580,31 @@ Proof.
   assert (existsb f l = true) by (apply existsb_exists; eauto). congruence.
 Qed.
 
+(* outside k=3, k=2 every parsed range lies inside the blob and is not empty *)
+Lemma sound_in_bounds : forall hdr size rs, 0 <= size <= int64_max ->
+  parse_range hdr size = Some rs -> has_negative_length rs = false -> has_zero_length rs = false ->
+  forall r, In r rs -> in_bounds size r.
+Proof.
+  intros hdr size rs Hs Ep Hneg Hz r Hr.
+  pose proof (existsb_false_forall _ _ Hneg r Hr) as H1.
+  pose proof (existsb_false_forall _ _ Hz r Hr) as H2.
+  destruct (parse_range_sound hdr size rs Hs Ep r Hr) as [H3|[H3 [H4 H5]]]; [lia|].
+  unfold in_bounds. lia.
+Qed.
+
+Theorem parse_raw_partial : forall hdr size, 0 <= size <= int64_max ->
+  trig_parse_raw (parse_range hdr size) = None ->
+  parse_raw_ok size (parse_range hdr size) = true.
+Proof.
+  intros hdr size Hs Ht. unfold parse_raw_ok. destruct (parse_range hdr size) as [rs|] eqn:Ep; [|reflexivity].
+  unfold trig_parse_raw in Ht.
+  destruct (has_negative_length rs) eqn:Hneg; [discriminate|].
+  destruct (has_zero_length rs) eqn:Hz; [discriminate|].
+  apply forallb_forall. intros r Hr.
+  destruct (sound_in_bounds hdr size rs Hs Ep Hneg Hz r Hr) as [H0 [H1 H2]].
+  unfold range_in_blob. lia.
+Qed.
+
 Lemma expected_parts_consistent : forall d rs, blen d <= int64_max ->
   (forall r, In r rs -> in_bounds (blen d) r) ->
   forallb (part_consistent d) (expected_parts d rs) = true.
@@ -388,36 +618,31 @@ Proof.
 Qed.
 
 (* C32 on arbitrary header strings: partial theorem *)
-Theorem raw_consistent_partial : forall d hdr enc, blen d <= int64_max ->
+Theorem raw_consistent_partial : forall d hdr enc ct, blen d <= int64_max ->
+  mp_fits_hdr hdr d ct = true ->
   trig_parsed (parse_range hdr (blen d)) (blen d) = None ->
-  self_consistent d (process_range hdr d enc) = true.
+  self_consistent d (process_range hdr d enc ct) = true.
 Proof.
-  intros d hdr enc Hm Ht. pose proof (blen_nonneg d) as Hs. unfold process_range.
+  intros d hdr enc ct Hm Hfit Ht. pose proof (blen_nonneg d) as Hs. unfold process_range.
   destruct (str_empty hdr).
   - unfold self_consistent, full_200. cbn [r_status r_body r_cl r_cr N.eqb Pos.eqb andb].
     unfold body_eqb, oz_eqb, ocr_eqb. rewrite blob_eqb_refl, Z.eqb_refl. reflexivity.
-  - destruct (parse_range hdr (blen d)) as [rs|] eqn:Ep.
-    + unfold trig_parsed in Ht.
-      destruct (has_negative_length rs) eqn:Hneg; [discriminate|].
-      destruct (sum_ranges rs >? blen d) eqn:Hsum; [discriminate|].
-      assert (Hne : rs <> []) by (destruct rs; [discriminate|congruence]).
-      assert (Hz : has_zero_length rs = false) by (destruct rs; [congruence|]; destruct (has_zero_length (r :: rs)); [discriminate|reflexivity]).
-      assert (Hin : forall r, In r rs -> in_bounds (blen d) r).
-      { intros r Hr.
-        pose proof (existsb_false_forall _ _ Hneg r Hr) as H1.
-        pose proof (existsb_false_forall _ _ Hz r Hr) as H2.
-        destruct (parse_range_sound hdr (blen d) rs (conj Hs Hm) Ep r Hr) as [H3|[H3 [H4 H5]]]; [lia|].
-        unfold in_bounds. lia. }
-      destruct (process_in_bounds d rs enc Hne Hin Hsum) as [H1 [H2 [H3 H4]]].
+  - unfold mp_fits_hdr in Hfit.
+    destruct (parse_range hdr (blen d)) as [rs|] eqn:Ep.
+    + destruct (trig_parsed_none rs (blen d) Ht) as [Hsum [Hne Hcase]].
+      destruct Hcase as [[r1 [r2 [rest [-> Hb]]]]|[Hneg Hz]].
+      { rewrite process_beyond by assumption. reflexivity. }
+      pose proof (sound_in_bounds hdr (blen d) rs (conj Hs Hm) Ep Hneg Hz) as Hin.
+      destruct (process_in_bounds d rs enc ct Hne Hin Hsum Hfit) as [H1 [H2 [H3 [H4 H5]]]].
       unfold self_consistent.
-      set (resp := process_parsed (Some rs) d enc) in *.
-      rewrite H1, H2, H3, (expected_parts_consistent d rs Hm Hin). cbn [N.eqb Pos.eqb andb].
-      replace (match expected_parts d rs with [] => true | _ => false end) with false
+      set (resp := process_parsed (Some rs) d enc ct) in *.
+      rewrite H1, H2, H3, H4, (expected_parts_consistent d rs Hm Hin). cbn [N.eqb Pos.eqb andb].
+      replace (is_nil (expected_parts d rs)) with false
         by (destruct rs; [congruence|reflexivity]).
       cbn [negb andb].
       destruct (is_multipart resp) eqn:Em.
       * rewrite orb_true_r. reflexivity.
-      * destruct (H4 eq_refl) as [r [Hr Hcl]]. subst rs.
+      * destruct (H5 eq_refl) as [r [Hr Hcl]]. subst rs.
         assert (Hb : r_body resp = Plain (slice d (fst r) (snd r)) 0).
         { subst resp. unfold process_parsed. rewrite Hsum.
           destruct (Hin r (or_introl eq_refl)) as [G0 [G1 G2]].
@@ -425,5 +650,5 @@ Proof.
         rewrite Hb, Hcl.
         destruct (Hin r (or_introl eq_refl)) as [G0 [G1 G2]].
         rewrite slice_len by assumption. rewrite oz_eqb_refl, orb_true_r. reflexivity.
-    + unfold self_consistent, process_parsed. cbn [r_status N.eqb Pos.eqb]. apply orb_true_r.
+    + unfold self_consistent, process_parsed, resp_416. cbn [r_status N.eqb Pos.eqb]. apply orb_true_r.
 Qed.
